@@ -13,6 +13,7 @@ impl ChanMsg for Operation {
 }
 pub mod cbc {
     use super::*;
+    pub use super::cbc_ctor::{unbounded, bounded};
     #[verifier::external_body]
     #[verifier::reject_recursive_types(T)]
     pub struct Sender<T> { x: std::marker::PhantomData<T> }
